@@ -230,12 +230,13 @@ def check_contract(contract, module_globals, limit=None):
     n = 0
     failures = []
     oracle_errors = []
-    for kwargs in itertools.islice(gen(), limit):
+    for idx, kwargs in enumerate(itertools.islice(gen(), limit)):
         r = check_case(contract, fn, kwargs, module_globals)
         if r == "skip":
             continue
         n += 1
         if r is not None:
+            r["input_index"] = idx       # ordinal in the (deterministic) input generator: inputs with objects replay by ordinal
             if r["kind"] == "oracle_error":
                 oracle_errors.append(r)
                 if len(oracle_errors) > 3:
